@@ -279,8 +279,10 @@ class WebSocket(object):
             return
         if self.is_closing:
             yield events.Closed(message.code, message.reason)
-            self.state.closing = False
+            # Set closed first, another thread must never see the
+            # websocket as neither closing nor closed after a close
             self.state.closed = True
+            self.state.closing = False
         else:
             yield events.Closing(message.code, message.reason)
             self.close(message.code, message.reason)
